@@ -148,7 +148,7 @@ COLUMNS = {
     "cat2": {"Levels": {"x": "level x"}, "HED": {"x": "Circle"}},
     "ign1": {"Description": "no annotation here", "Levels": {"p": "q"}},
     "refc": {"HED": {"r1": "Triangle, {val1}", "r2": "({cat1}), Cross"}},
-    "refv": {"HED": "Item/#, {HED}"},
+    "refv": {"HED": "Label/#, {HED}"},
 }
 NEEDS = {"refc": {"val1", "cat1"}}
 
@@ -169,7 +169,7 @@ def bases(quick):
     out += [names, list(reversed(names))]
     return out
 EXTRA_STRINGS = ["Red", "(Blue, Square)", "Circle", "Triangle, Cross", "((Green, Square), Blue)", "Label/#",
-                 "(Duration/# s, (Green))", "Item/#", "Age/# years"]
+                 "(Duration/# s, (Green))", "Label/#", "Age/# years"]
 
 
 def kind(entry):
